@@ -93,7 +93,8 @@ pub fn gen_op(rng: &mut Rng, n: usize, len: usize, allow_forget: bool) -> Op {
         21 => Op::SwapRemoveFront(rnd_index(rng, len, n)),
         22 => Op::TruncateBack(rnd_index(rng, len, n)),
         23 => Op::TruncateFront(rnd_index(rng, len, n)),
-        24..=26 => Op::Extend(small_k(rng)),
+        24..=25 => Op::Extend(small_k(rng)),
+        26 => Op::ExtendHinted(small_k(rng), 1 + rng.below(3) as u8),
         27..=29 => Op::ExtendFromSlice(small_k(rng)),
         30..=32 => {
             let r = rnd_range(rng, len);
@@ -218,7 +219,7 @@ pub fn op_arg_class(op: &Op, len: usize, n: usize) -> String {
         Op::Remove(i) | Op::SwapRemoveBack(i) | Op::SwapRemoveFront(i) | Op::TruncateBack(i) | Op::TruncateFront(i)
         | Op::Get(i) | Op::NthFront(i) | Op::NthBack(i) | Op::Index(i) => arg_class(*i, len, n).to_string(),
         Op::Swap(i, j) => format!("{},{}", arg_class(*i, len, n), arg_class(*j, len, n)),
-        Op::Extend(k) | Op::ExtendFromSlice(k) => {
+        Op::Extend(k) | Op::ExtendFromSlice(k) | Op::ExtendHinted(k, _) => {
             let free = n - len.min(n);
             if *k == 0 {
                 "0".into()
